@@ -118,3 +118,48 @@ package ro
 //@   binds bufferSize
 //@   track call.NewReplaySubject
 //@   ensures [connector-is-a-replay-subject-of-the-configured-size|C11] trace(call.NewReplaySubject(bufferSize))
+
+// The connectable constructors: which source, which configuration (the defaults reset the subject on disconnect).
+
+//@ func NewConnectableObservable
+//@   props C11
+//@   binds subscribe
+//@   track call.NewObservable call.newConnectableObservableImpl
+//@   ensures [default-configuration-resets-on-disconnect|C11] trace(call.NewObservable(subscribe), call.newConnectableObservableImpl(res(call.NewObservable), fields(_, true)))
+
+//@ func NewConnectableObservableWithContext
+//@   props C11
+//@   binds subscribe
+//@   track call.NewObservableWithContext call.newConnectableObservableImpl
+//@   ensures [default-configuration-resets-on-disconnect|C11] trace(call.NewObservableWithContext(subscribe), call.newConnectableObservableImpl(res(call.NewObservableWithContext), fields(_, true)))
+
+//@ func NewConnectableObservableWithConfig
+//@   props C11
+//@   binds subscribe config
+//@   track call.NewObservable call.newConnectableObservableImpl
+//@   ensures [uses-the-given-configuration|C11] trace(call.NewObservable(subscribe), call.newConnectableObservableImpl(res(call.NewObservable), config))
+
+//@ func NewConnectableObservableWithConfigAndContext
+//@   props C11
+//@   binds subscribe config
+//@   track call.NewObservableWithContext call.newConnectableObservableImpl
+//@   ensures [uses-the-given-configuration|C11] trace(call.NewObservableWithContext(subscribe), call.newConnectableObservableImpl(res(call.NewObservableWithContext), config))
+
+//@ func Connectable
+//@   props C11
+//@   binds source
+//@   track call.newConnectableObservableImpl
+//@   ensures [default-configuration-resets-on-disconnect|C11] trace(call.newConnectableObservableImpl(source, fields(_, true)))
+
+//@ func ConnectableWithConfig
+//@   props C11
+//@   binds source config
+//@   track call.newConnectableObservableImpl
+//@   ensures [uses-the-given-configuration|C11] trace(call.newConnectableObservableImpl(source, config))
+
+//@ func newConnectableObservableImpl
+//@   props C11
+//@   binds source
+//@   maypanic
+//@   track callfn.ANY
+//@   ensures [starts-disconnected-on-the-connector's-subject|C11] !panics ==> result.source == source && result.subscription == nil && count(callfn.ANY) == 1 && result.subject == res(callfn.ANY)
